@@ -60,6 +60,7 @@ def generate(g, tier):
         "jitter": g.pick([0, 1e-6, 2e-5]),
         "rand": g.choose(1 << 30),
         "tie_window": 0,
+        "complete_at": g.pick([0.25, 0.6, 1.2, 2.5]) if g.coin(0.25) else None,
         "layout": [list(range(b[i], b[i + 1])) for i in range(nworkers)],
         "procs": [{"perf_origin": g.pick([0.0, 555.5]), "wall_skew": g.pick([0.0, 0.0, 0.0, 0.4, -1.3, 4.0])} for _ in range(nworkers)],
         "ncuts": 6 if tier == "quick" else 12,
@@ -157,6 +158,9 @@ class PipelineHarness(Harness):
             for wi, group in enumerate(cfg["layout"]):
                 p = cfg["procs"][wi]
                 sim.add_worker(track, Proc(f"worker{wi}", perf_origin=p["perf_origin"], wall_skew=p["wall_skew"]), [a for a in allocs if a[0] in group], group)
+            if cfg.get("complete_at") is not None:
+                # the task is ended from outside (completed-by of a sibling): clients stop wherever they are, also inside their warm-up
+                sim.at(cfg["complete_at"], lambda: [w.complete.set() for w in sim.workers])
             sim.run()
             errors = [w.error for w in sim.workers if w.error is not None]
             for e in errors:
